@@ -5,6 +5,7 @@ pub mod h_tree;
 pub mod h_pack;
 pub mod h_melda;
 pub mod h_c08;
+pub mod h_c15;
 pub mod h_c10;
 pub mod h_c07;
 pub mod sym;
@@ -17,6 +18,7 @@ pub fn dispatch(name: &str) -> bool {
         "h_tree::tree_rule" => h_tree::tree_rule(),
         "h_pack::pack_roundtrip" => h_pack::pack_roundtrip(),
         "h_melda::smoke" => h_melda::smoke(),
+        "h_c15::stage_roundtrip" => h_c15::stage_roundtrip(),
         "h_c10::junk_item" => h_c10::junk_item(),
         "h_c10::damaged_item" => h_c10::damaged_item(),
         "h_c07::resolve_object" => h_c07::resolve_object(),
